@@ -106,6 +106,7 @@ fn run_lines(ctx: &Ctx, header: &str, lines: &[Line], footer: &str, curve: &str,
     let dir = scratch(ctx, tag);
     let path = dir.join("c.circom");
     std::fs::write(&path, &src).map_err(|e| Bad::new(format!("INFRA write: {e}")))?;
+    std::fs::write(dir.join("zzstubs.circom"), stubs()).map_err(|e| Bad::new(format!("INFRA write: {e}")))?;
     let mut o = RunOpts::files(&[&path]).verbose().level("info");
     o.curve = Some(curve_arg.to_string());
     o.cpu_secs = 120;
@@ -143,11 +144,33 @@ fn run_lines(ctx: &Ctx, header: &str, lines: &[Line], footer: &str, curve: &str,
     Ok(())
 }
 
-const HEADER: &str = "pragma circom 2.0.0;\nfunction zf(x) {\n    return x + 250;\n}\ntemplate Top(n) {\n    signal input a;\n    signal input b;\n";
+/// One-input, one-output stubs for every name used by the anonymous-component forms (the desugarer
+/// needs a definition; the passes only look at the name and the arguments of the instantiation).
+fn stubs() -> String {
+    let mut names: Vec<&str> = TABLE.iter().map(|x| x.0).chain(NEAR_MISSES.iter().copied()).chain(["Num2Bits", "Bits2Num"]).collect();
+    names.sort();
+    names.dedup();
+    let mut s = String::from("pragma circom 2.0.0;\n");
+    for n in names {
+        s.push_str(&format!("template {n}(k) {{ signal input in; signal output out; out <== in; }}\n"));
+    }
+    s
+}
+
+const HEADER: &str = "pragma circom 2.0.0;\ninclude \"zzstubs.circom\";\nfunction zf(x) {\n    return x + 250;\n}\ntemplate Top(n) {\n    signal input a;\n    signal input b;\n";
 
 /// The ways an instantiation can be written: declaration with initialiser, declaration then
 /// assignment, element of a component array, element assigned in a loop.
 fn inst(form: usize, var: &str, call: &str) -> String {
+    if form >= 4 {
+        // anonymous component (the stub definitions come from an included, unnamed file), at top level
+        // or as an element assigned in a loop
+        return if form == 4 {
+            format!("    signal zq{var};\n    zq{var} <== {call}(a);")
+        } else {
+            format!("    signal zq{var}[2];\n    for (var j{var} = 0; j{var} < 2; j{var}++) {{\n        zq{var}[j{var}] <== {call}(a);\n    }}")
+        };
+    }
     match form % 4 {
         0 => format!("    component {var} = {call};"),
         1 => format!("    component {var};\n    {var} = {call};"),
@@ -259,7 +282,7 @@ fn exhaustive(ctx: &Ctx, stats: &Stats) -> Vec<Failure> {
             "table" => {
                 for (i, (name, _, _)) in TABLE.iter().enumerate() {
                     lines.push(name_line(i, name, job.curve));
-                    for f in 1..4 {
+                    for f in 1..6 {
                         lines.push(name_line_as(1000 * f + i, name, job.curve, f));
                     }
                 }
@@ -290,8 +313,8 @@ fn exhaustive(ctx: &Ctx, stats: &Stats) -> Vec<Failure> {
                     }
                     lines.push(size_line(n as usize, template, n, form, job.curve));
                     // the other ways of writing the instantiation: all of them around the boundary, one elsewhere
-                    for f in 1..4usize {
-                        if (250..=258).contains(&n) || n as usize % 3 + 1 == f {
+                    for f in 1..6usize {
+                        if (250..=258).contains(&n) || n as usize % 5 + 1 == f {
                             lines.push(size_line_as(10_000 * f + n as usize, template, n, form, job.curve, f));
                         }
                     }
@@ -304,7 +327,15 @@ fn exhaustive(ctx: &Ctx, stats: &Stats) -> Vec<Failure> {
         for l in &lines {
             stats.nontrivial(fnv(format!("{}/{}", job.curve, l.text).as_bytes()));
         }
-        run_lines(ctx, HEADER, &lines, "}\n", job.curve, job.curve, &format!("c11x-{}", job.kind))
+        run_lines(ctx, HEADER, &lines, "}\n", job.curve, job.curve, &format!("c11x-{}", job.kind))?;
+        if matches!(job.kind, "table" | "num2bits-literal" | "bits2num-literal" | "lessthan") {
+            // the same instantiations inside `template parallel Top` of a file with a main component
+            // (programs with a main component are assembled by another code path)
+            let header = HEADER.replace("template Top(n)", "template parallel Top(n)");
+            stats.class_n("exhaustive:parallel_template_with_main_component", lines.len() as u64);
+            run_lines(ctx, &header, &lines, "}\ncomponent main = Top(3);\n", job.curve, job.curve, &format!("c11y-{}", job.kind))?;
+        }
+        Ok(())
     });
     fails
         .into_iter()
@@ -394,7 +425,7 @@ fn random_case(ctx: &Ctx, tape: &[u8], rec: &Rec) -> Verdict {
         let l = match t.below(6) {
             0 | 1 => {
                 let name = if t.chance(150) { TABLE[t.below(TABLE.len())].0 } else { NEAR_MISSES[t.below(NEAR_MISSES.len())] };
-                name_line_as(i, name, curve, t.below(4))
+                name_line_as(i, name, curve, t.below(6))
             }
             2 | 3 => {
                 let size = match t.below(4) {
@@ -404,7 +435,7 @@ fn random_case(ctx: &Ctx, tape: &[u8], rec: &Rec) -> Verdict {
                     _ => t.below(64) as u64,
                 };
                 let form = [SizeForm::Literal, SizeForm::Arithmetic, SizeForm::ShiftExpr, SizeForm::Variable, SizeForm::Parameter, SizeForm::FunctionCall][t.below(6)];
-                size_line_as(i, if t.chance(128) { "Num2Bits" } else { "Bits2Num" }, size, form, curve, t.below(4))
+                size_line_as(i, if t.chance(128) { "Num2Bits" } else { "Bits2Num" }, size, form, curve, t.below(6))
             }
             _ => {
                 let k = match t.below(4) {
@@ -424,7 +455,16 @@ fn random_case(ctx: &Ctx, tape: &[u8], rec: &Rec) -> Verdict {
     if t.chance(128) {
         header.push_str("    var zz = 0;\n    for (var zi = 0; zi < 3; zi++) {\n        zz += zi;\n    }\n");
     }
-    let footer = if t.chance(128) { "    signal output zo;\n    zo <== a * b;\n}\n" } else { "}\n" };
+    let with_main = t.chance(100);
+    if t.chance(80) {
+        header = header.replace("template Top(n)", "template parallel Top(n)");
+    }
+    let footer = match (t.chance(128), with_main) {
+        (true, false) => "    signal output zo;\n    zo <== a * b;\n}\n",
+        (false, false) => "}\n",
+        (true, true) => "    signal output zo;\n    zo <== a * b;\n}\ncomponent main = Top(3);\n",
+        (false, true) => "}\ncomponent main = Top(3);\n",
+    };
     rec.sample(|| json!({"curve": curve, "curve_argument": arg, "lines": lines.iter().map(|l| l.text.clone()).collect::<Vec<_>>()}));
     run_lines(ctx, &header, &lines, footer, curve, &arg, "c11r")
 }
